@@ -244,6 +244,28 @@ def extract(repo, failures):
     if enc_all is None:
         failures.append("Codec.h: detail::encode(buffer, cache, args...) not found")
 
+    # ---- the backend's shared argument store: reset for EVERY statement, whatever its argument count -------------
+    dm = re.search(r"void\s+decode_and_store_args\s*\(\s*(?:QUILL_MAYBE_UNUSED\s+)?std::byte\*&\s*buffer,\s*"
+                   r"(?:QUILL_MAYBE_UNUSED\s+)?DynamicFormatArgStore&\s*args_store\s*\)\s*\{", cd)
+    dbody = None
+    if dm:
+        try:
+            dbody = re.sub(r"\s", "", body_after(cd, dm.end() - 1))
+        except ValueError:
+            dbody = None
+    # first statement of the body is the unconditional clear(); the decode of the pack follows; no branch around either
+    out["decodeClearsStoreFirst"] = bool(dbody is not None and dbody.startswith("args_store.clear();") and
+                                         "decode_and_store_arg<Args...>(buffer,&args_store);" in dbody and
+                                         not re.search(r"\bif\b|\?", dbody))
+    if dbody is None:
+        failures.append("Codec.h: detail::decode_and_store_args(buffer, args_store) not found")
+    dfs = strip_cpp_comments(read(repo, "include/quill/core/DynamicFormatArgStore.h"))
+    clr_s = func_body(dfs, r"void\s+clear\s*\(\s*\)\s*\{")
+    c = re.sub(r"\s", "", clr_s or "")
+    # clear() drops the values, the owned copies and the string-related flag
+    out["storeClearResetsAll"] = bool("_data.clear();" in c and "_dynamic_arg_list=detail::DynamicArgList{};" in c and
+                                      "_has_string_related_type=false;" in c)
+
     # ---- the unbounded queue between log calls (C11): does a drained queue publish the reader position? -----------
     bq = strip_cpp_comments(read(repo, "include/quill/core/BoundedSPSCQueue.h"))
     uq = strip_cpp_comments(read(repo, "include/quill/core/UnboundedSPSCQueue.h"))
@@ -352,6 +374,9 @@ def render(out):
     L.append("def clearAtStart : Bool := %s" % lean_bool(out["clearAtStart"]))
     L.append("def encodeCacheConst : Bool := %s" % lean_bool(out["encodeCacheConst"]))
     L.append("def encodeMutatesCache : Bool := %s" % lean_bool(out["encodeMutatesCache"]))
+    L.append("/-- `decode_and_store_args` clears the shared store first, unconditionally; `clear()` resets values, copies and flag -/")
+    L.append("def decodeClearsStoreFirst : Bool := %s" % lean_bool(out["decodeClearsStoreFirst"]))
+    L.append("def storeClearResetsAll : Bool := %s" % lean_bool(out["storeClearResetsAll"]))
     L.append("/-- `commit_read` publishes the reader position of a drained (unbounded) queue; batch threshold in percent -/")
     L.append("def drainPublishes : Bool := %s" % lean_bool(out["drainPublishes"]))
     L.append("def readerBatchPercent : Nat := %d" % out["readerBatchPercent"])
@@ -400,7 +425,7 @@ def _neutral():
                         sameSizeReservedCommitted=False),
         "unformattedEvents": [], "macroEvents": [], "clearExempt": [], "clearsCache": False, "encodeStartsAtZero": False,
         "clearAtStart": False, "encodeCacheConst": False, "encodeMutatesCache": True, "drainPublishes": False,
-        "readerBatchPercent": 0, "commitReadPerPass": False,
+        "readerBatchPercent": 0, "commitReadPerPass": False, "decodeClearsStoreFirst": False, "storeClearResetsAll": False,
         "kinds": {name: dict(k0) for name, _, _ in CONTAINERS},
         "directFormatCalls": 0, "directPushes": 0, "deferredFormatCalls": 0, "nonpodSlackSites": 0,
         "printable": dict(lo=0, hi=0, extra=[]), "escape": dict(hex="", prefix=[], nibbles=[]), "sanitizeGuard": False,
